@@ -52,6 +52,10 @@ def make_call(call: dict, root: str, tool=None):
         target = call.get("path") or TARGET
     elif spell == "reldot":
         target = "./" + (call.get("path") or TARGET)
+    elif spell == "bare":  # needs the working directory to be the target's directory (case["cwd"] == "dir")
+        target = os.path.basename(call.get("path") or TARGET)
+    elif spell == "baredot":
+        target = "./" + os.path.basename(call.get("path") or TARGET)
     entry = call["entry"]
     bh = call.get("bh")
     if entry == "tool":
@@ -556,15 +560,17 @@ def gen_race(t: Tape, idx: int) -> dict:
             w["changes"] = {"MARK": f"chg_{m}w{i}"}
         w["bh"] = t.weighted([(cur_h, 8), (None, 2), (sha_text("stale"), 1)], "r.bh")
         writers.append(w)
+    cwd_kind = "root"
     if t.flag(300, "r.spell"):
+        cwd_kind = t.pick(["root", "dir"], "r.cwd")
         for w in writers:
-            w["spell"] = t.pick(["abs", "dot", "dslash", "rel", "reldot"], "r.sp")
+            w["spell"] = t.pick(["abs", "dot", "dslash"] + (["rel", "reldot"] if cwd_kind == "root" else ["bare", "baredot"]), "r.sp")
     if init is not None and t.flag(250, "r.editor"):
         writers.append({"entry": "editor", "mode": "stealth", "bh": None})
     knobs = {"sched": t.pick(["focus", "uniform", "focus"], "r.sched"), "switch_permille": t.pick([500, 300, 800, 150], "r.sw"),
              "wchunk": t.pick([1 << 16, 64], "r.wc"), "tmp_shared": bool(t.choose(2, "r.tmp"))}
     case = {"layer": "L2", "init": init, "writers": writers, "knobs": knobs, "tape": {"seed": t.choose(1 << 30, "r.tseed")},
-            "fmode": t.pick([0o644, 0o444, 0o600, 0o400, 0o664, 0o755], "r.fmode")}
+            "fmode": t.pick([0o644, 0o444, 0o600, 0o400, 0o664, 0o755], "r.fmode"), "cwd": cwd_kind}
     if t.flag(200, "r.kill"):
         case["fault_cfg"] = {"rate": 60, "boost": 60, "max": 1, "kinds": ["kill"], "window": 0}
         case["ftape"] = {"seed": t.choose(1 << 30, "r.fseed")}
@@ -627,7 +633,8 @@ def run_race(case: dict, stats: Stats | None = None) -> dict:
     sim.before_op, sim.after_op = before_op, after_op
     actors = [sim.add_actor(f"w{i}", make_call(w, root), faultable=True) for i, w in enumerate(writers)]
     cwd_old = os.getcwd()
-    os.chdir(root)  # relative spellings of the target ("rel", "reldot") are relative to the sandbox root
+    # relative spellings of the target: "rel"/"reldot" are relative to the sandbox root, "bare"/"baredot" to the target's directory
+    os.chdir(os.path.dirname(target) if case.get("cwd") == "dir" else root)
     try:
         sim.run()
     finally:
@@ -887,12 +894,13 @@ def run_l2x_pair(i: int, j: int, stats: Stats, viols: list, cap: int = 3000):
     if i == j and wj.get("changes"):
         wj["changes"] = {"MARK": "twin_" + str(j)}
     # the second writer names the file differently in four pairs out of five (same file, another spelling of its path)
-    wj["spell"] = ["abs", "rel", "dot", "dslash", "reldot"][(3 * i + j) % 5]
+    cwd_kind = "dir" if (i + j) % 2 else "root"
+    wj["spell"] = (["abs", "bare", "dot", "dslash", "baredot"] if cwd_kind == "dir" else ["abs", "rel", "dot", "dslash", "reldot"])[(3 * i + j) % 5]
     prefix: list = []
     n = 0
     while n < cap:
         case = {"layer": "L2", "init": L2X_INIT, "writers": [wi, wj], "knobs": {"sched": "enum"}, "tape": {"values": list(prefix)},
-                "prop": PROP, "seed": 0, "enumerated": [i, j], "fmode": 0o444 if (i + j) % 2 else 0o644}
+                "prop": PROP, "seed": 0, "enumerated": [i, j], "fmode": 0o444 if (i + j) % 2 else 0o644, "cwd": cwd_kind}
         res = run_race(case, stats)
         n += 1
         for v in res["violations"]:
